@@ -52,7 +52,7 @@ fn group_base(seed: u64, group: u64) -> (Case, &'static vcorpus::ProgramDef) {
    };
    let progs: Vec<_> = programs_tagged("c14").into_iter().filter(|p| p.variants.contains(&Variant::SerTo)).collect();
    let def = *rng.pick(&progs);
-   let variant = if rng.chance(400) { Variant::SerTo } else { Variant::ParTo };
+   let variant = if rng.chance(400) || !def.variants.contains(&Variant::ParTo) { Variant::SerTo } else { Variant::ParTo };
    let g = def.gen("small").or(def.gen("chain")).unwrap_or(def.gens[0].1);
    let gname = def.gens.iter().find(|x| x.1 as usize == g as usize).map(|x| x.0).unwrap_or("?");
    // small inputs: the number of crash points to enumerate grows with the number of iterations
